@@ -34,8 +34,8 @@ func IntProps(propContainer map[string]object.PanObject) map[string]object.PanOb
 					res = -1
 				}
 
-				// NOTE: Int's descendants also call this
-				return object.NewInheritedInt(args[0].Proto(), res)
+				// NOTE: always return plain Int (not a descendant) because Comparable compares it with -1, 0, 1
+				return object.NewPanInt(res)
 			},
 		),
 		// NOTE: this cannot be removed (Comparable uses Int#== internally)
